@@ -91,6 +91,30 @@ pub fn keyword_matches(def: &[u8], cand: &[u8]) -> bool {
     alpha_matches(def, cand)
 }
 
+/// Chimeras of the library's keywords: the head (short form) of one glued to the tail of
+/// another (`MAXAULT`, `DEFIMUM`, `INFIMUM`, `ONF`), one keyword followed by another, a
+/// keyword doubled - strings that a matcher which checks head and tail independently accepts.
+pub fn keyword_chimeras() -> Vec<String> {
+    let kws = ["MAXimum", "MINimum", "DEFault", "UP", "DOWN", "INFinity", "NINFinity", "NAN", "ON", "OFF", "AUTO", "ONCE"];
+    let mut v: Vec<String> = Vec::new();
+    for a in kws {
+        let head: String = a.chars().take_while(|c| c.is_ascii_uppercase()).collect();
+        for b in kws {
+            let tail: String = b.chars().skip_while(|c| c.is_ascii_uppercase()).collect();
+            let bhead: String = b.chars().take_while(|c| c.is_ascii_uppercase()).collect();
+            for cand in [format!("{head}{tail}"), format!("{head}{bhead}"), format!("{}{}", a, b), format!("{head}{}", b), format!("{bhead}{tail}{tail}")] {
+                let c = cand.to_ascii_uppercase();
+                if !c.is_empty() && c.len() <= 12 && !v.contains(&c) {
+                    v.push(c);
+                }
+            }
+        }
+    }
+    let lower: Vec<String> = v.iter().map(|s| s.to_ascii_lowercase()).collect();
+    v.extend(lower);
+    v
+}
+
 /// The response short form of a definition: upper-case run plus numeric suffix.
 pub fn response_form(def: &[u8]) -> Vec<u8> {
     let (da, ds) = split_suffix(def);
